@@ -194,6 +194,26 @@ def r2(ctx):
             ctx.bad(R, k, t["s"], f"allowed site no longer satisfies its justification: {err}")
         else:
             ctx.ok(R, k, t["s"], f"allowed: {allowed[0]} (verified)")
+    # an entropy source handed over as a function value (`seed.map_or_else(SmallRng::from_os_rng, SmallRng::seed_from_u64)`) is a call
+    # site too: it is allowed where the call would be, and only as the *default* of an Option combinator on the value the call's
+    # justification tests (the configured seed)
+    for b in sorted(ctx.w.bodies.values(), key=lambda b: b.id):
+        if b.crate not in ("turmoil", "turmoil_net", "turmoil_fs", "turmoil_io_uring"):
+            continue
+        for bb, t in b.calls():
+            for ai, a in enumerate(t["args"]):
+                fi = a.get("fn") if isinstance(a, dict) else None
+                if not fi or not ENTROPY.search(fi):
+                    continue
+                root = _root(ctx, b)
+                k = f"{root}:{fi}#{nth(cnt, (root, fi))}"
+                allowed = [x for x in ALLOW_CALLS if x[0] == root and re.search(x[1], fi)]
+                dflt = re.search(r"Option::(map_or_else|unwrap_or_else|or_else)$", t["f"]) is not None and ai == 1
+                recv = Slicer(ctx.w).atoms(b, t["args"][0]) if t["args"] else set()
+                if allowed and dflt and (root != "turmoil::builder::Builder::build" or "field:turmoil::builder::Builder::rng_seed" in recv):
+                    ctx.ok(R, k, t["s"], f"allowed: {allowed[0][2]} (function value used as the None-side default)")
+                else:
+                    ctx.bad(R, k, t["s"], f"`{fi}` (a nondeterminism source) is handed to `{t['f']}` as a function value in `{b.id}`, which is not an allowed use")
     for b in sorted(ctx.w.bodies.values(), key=lambda b: b.id):
         for bb, i, s in b.all_stmts():
             r = s["r"]
